@@ -426,8 +426,8 @@ def configs(tier):
         d_on, d_off = (0, 7, 8, 10), (0,)
         full_depth, core_depth, core_on, core_off = 2, 3, (8,), ()
     else:
-        d_on, d_off = (0, 1, 6, 7, 8, 9, 10, 11, 12, 13), (0, 8)
-        full_depth, core_depth, core_on, core_off = 3, 4, (8, 10), (0,)
+        d_on, d_off = (0, 7, 8, 9, 10, 11), (0,)
+        full_depth, core_depth, core_on, core_off = 3, 4, (8,), ()
     for M in MIUS:
         for agf in (True, False):
             for delta in (d_on if agf else d_off):
